@@ -2,14 +2,15 @@ package sim
 
 import (
 	"fmt"
-	"sort"
 	"math/big"
+	"sort"
 	"strings"
+	"time"
 
 	sdk "github.com/cosmos/cosmos-sdk/types"
 	"github.com/cosmos/cosmos-sdk/x/authz"
-	"github.com/cosmos/cosmos-sdk/x/feegrant"
 	banktypes "github.com/cosmos/cosmos-sdk/x/bank/types"
+	"github.com/cosmos/cosmos-sdk/x/feegrant"
 	govv1 "github.com/cosmos/cosmos-sdk/x/gov/types/v1"
 	stakingtypes "github.com/cosmos/cosmos-sdk/x/staking/types"
 
@@ -23,23 +24,23 @@ import (
 
 // BuiltOp is an operation resolved against the current world.
 type BuiltOp struct {
-	Op      *Op
-	Msg     sdk.Msg
-	Signer  Addr   // account that signs (Actor)
-	Named   Addr   // address written into the message's signer field
-	Expect  Expect // model expectation assuming the tx passes the ante stage
-	ModelExpect Expect // same, before the "named account did not sign" rule (used under exec wrappers)
-	Apply   func(w *World) // model transition on success
-	Desc    string
+	Op          *Op
+	Msg         sdk.Msg
+	Signer      Addr           // account that signs (Actor)
+	Named       Addr           // address written into the message's signer field
+	Expect      Expect         // model expectation assuming the tx passes the ante stage
+	ModelExpect Expect         // same, before the "named account did not sign" rule (used under exec wrappers)
+	Apply       func(w *World) // model transition on success
+	Desc        string
 	// resolved details used by oracles
-	Module  string // "ent","wrk","bcn","str","bank",...
-	ID      uint64 // referenced id
-	U64     uint64 // height / slots
-	Amount  *big.Int
-	Denom   string
+	Module           string // "ent","wrk","bcn","str","bank",...
+	ID               uint64 // referenced id
+	U64              uint64 // height / slots
+	Amount           *big.Int
+	Denom            string
 	StreamR, StreamS Addr
-	IsFeeOp bool // WRKChain/BEACON operation that carries a protocol fee
-	LiveTarget bool // the referenced entity exists (the op would be meaningful for the entitled party)
+	IsFeeOp          bool // WRKChain/BEACON operation that carries a protocol fee
+	LiveTarget       bool // the referenced entity exists (the op would be meaningful for the entitled party)
 }
 
 // BuiltTx is a transaction ready to be delivered.
@@ -54,16 +55,16 @@ type BuiltTx struct {
 	Fee      sdk.Coins
 	Expect   Expect
 	// results
-	CheckRes  *TxResult
-	CheckLog  string
-	Res       TxResult
-	Log       string
-	Delivered bool
-	OK        bool
-	Panicked  bool
+	CheckRes   *TxResult
+	CheckLog   string
+	Res        TxResult
+	Log        string
+	Delivered  bool
+	OK         bool
+	Panicked   bool
 	AntePassed bool
-	Events    []sdkEvent
-	Snap      map[string]interface{} // oracle snapshots taken before the tx
+	Events     []sdkEvent
+	Snap       map[string]interface{} // oracle snapshots taken before the tx
 }
 
 type sdkEvent struct {
@@ -243,6 +244,10 @@ func (w *World) buildOp(op *Op) *BuiltOp {
 			ent = w.acct(op.Peer)
 		}
 		setParties(ent)
+		if op.Rule == 9 {
+			gov := w.addrName("gov") // the governance account names itself as the deciding signer (inside a proposal)
+			b.Signer, b.Named = gov, gov
+		}
 		b.Module = "ent"
 		ref := op.Ref
 		if ref >= 0 {
@@ -274,6 +279,10 @@ func (w *World) buildOp(op *Op) *BuiltOp {
 			ent = w.acct(0)
 		}
 		setParties(ent)
+		if op.Rule == 9 {
+			gov := w.addrName("gov") // the governance account names itself as the signer changing the whitelist (inside a proposal)
+			b.Signer, b.Named = gov, gov
+		}
 		b.Module = "ent"
 		target := w.peer(op.Peer)
 		action := enttypes.WhitelistActionRemove
@@ -527,6 +536,14 @@ func (w *World) buildOp(op *Op) *BuiltOp {
 		denom := w.denomSel(op.Denom)
 		rate := int64(op.N)
 		dep := w.streamAmount(op, rate)
+		if op.Rule%8 == 6 {
+			rate = 1 + int64(op.N%3)
+			// 9999-12-31T23:59:59Z is the last whole second a protobuf timestamp holds
+			last := time.Date(9999, 12, 31, 23, 59, 59, 0, time.UTC).Unix()
+			off := []int64{-50400, -18000, -3600, -1, 0, 1, 2, 3600, 18000, 43200, 50400}[int(op.M)%11]
+			dep = new(big.Int).Mul(big.NewInt(rate), big.NewInt(last-w.C.Now.Unix()+off))
+			w.Class("op.stream-running-dry-around-the-last-representable-time")
+		}
 		b.Amount, b.Denom = dep, denom
 		named := b.Named
 		b.StreamR, b.StreamS = recv, named
